@@ -107,7 +107,7 @@ func traffic(c *mon.C, k int) {
 	wsutil.ReadClientData(xport.RW{Reader: &ctl, Writer: io.Discard})
 }
 
-func request(k int, withProto, withExt bool) []byte {
+func request(k int, withProto, withExt bool, deflateOffer ...string) []byte {
 	var b strings.Builder
 	b.WriteString("GET /x HTTP/1.1\r\nHost: alias.example\r\nUpgrade: websocket\r\nConnection: Upgrade\r\nSec-WebSocket-Version: 13\r\nSec-WebSocket-Key: dGhlIHNhbXBsZSBub25jZQ==\r\n")
 	if withProto {
@@ -122,7 +122,11 @@ func request(k int, withProto, withExt bool) []byte {
 	}
 	if withExt {
 		fmt.Fprintf(&b, "Sec-WebSocket-Extensions: %s\r\n", extFor(k))
-		fmt.Fprintf(&b, "Sec-WebSocket-Extensions: permessage-deflate; client_max_window_bits=%d\r\n", 8+k%8)
+		if len(deflateOffer) > 0 {
+			fmt.Fprintf(&b, "Sec-WebSocket-Extensions: %s\r\n", deflateOffer[0])
+		} else {
+			fmt.Fprintf(&b, "Sec-WebSocket-Extensions: permessage-deflate; client_max_window_bits=%d\r\n", 8+k%8)
+		}
 	}
 	b.WriteString("\r\n")
 	return []byte(b.String())
@@ -144,6 +148,35 @@ func upgradeOnce(c *mon.C, path string, k int) (ws.Handshake, string, error) {
 		u.Extension = func(o httphead.Option) bool { return strings.HasPrefix(string(o.Name), "ext-") }
 		wantExts = []string{extFor(k)}
 	case "Negotiate-wsflate":
+		if k%2 == 1 {
+			// server configurations x offers that repeat the configuration EXACTLY (the answer then carries the
+			// same parameters as the offer), ask for less, or ask for something else. What the right answer is
+			// is C14's business: here the result is snapshotted when Upgrade returns and must not change later.
+			cfgs := []wsflate.Parameters{{ServerNoContextTakeover: true, ClientMaxWindowBits: 8}, {}, wsflate.DefaultParameters, {ServerMaxWindowBits: 10, ClientMaxWindowBits: 12}, {ClientNoContextTakeover: true}}
+			cfg := cfgs[k/2%len(cfgs)]
+			var ob bytes.Buffer
+			httphead.WriteOptions(&ob, []httphead.Option{cfg.Option()})
+			offer := ob.String()
+			switch k / 10 % 3 {
+			case 1:
+				offer = "permessage-deflate"
+			case 2:
+				offer = fmt.Sprintf("permessage-deflate; client_max_window_bits=%d; server_no_context_takeover", 8+k%8)
+			}
+			e := &wsflate.Extension{Parameters: cfg}
+			u.Negotiate = e.Negotiate
+			plans := xport.Plans(int64(k), nil)
+			hs, err := u.Upgrade(xport.RW{Reader: xport.NewChunker(request(k, true, true, offer), plans[k%len(plans)]), Writer: io.Discard})
+			// accepted: the answer is the configuration; declined: no extension. Anything else at return time
+			// (poison, somebody else's bytes) already is the aliasing this check looks for.
+			got := renderHS(hs)
+			var cb bytes.Buffer
+			httphead.WriteOptions(&cb, []httphead.Option{cfg.Option()})
+			if accepted := renderOpts("", []string{cb.String()}); got != accepted {
+				return hs, renderOpts("", nil), err
+			}
+			return hs, got, err
+		}
 		e := &wsflate.Extension{Parameters: wsflate.Parameters{ServerNoContextTakeover: true, ClientMaxWindowBits: 8}}
 		u.Negotiate = e.Negotiate
 		wantExts = []string{"permessage-deflate; server_no_context_takeover; client_max_window_bits=8"}
